@@ -133,6 +133,7 @@ def record_trace_special(ws, sch, item, kind, rng):
         except Exception as e:
             res = type(e).__name__
     ws._last = None     # the files were modified: materialise again next time
+    ws.touched(base)
     ev = [[k, name_of_url(u, base)] for k, u in o.events]
     return {"events": ev or [["stream-open", "~"], ["stream-close", "~"]], "allclosed": o.all_closed(),
             "_what": {"files": item["files"], "special": kind, "victim": victim, "result": res}}
